@@ -60,7 +60,7 @@ Next == (\E n \in 0..Unit, e \in BOOLEAN : Read(n, e)) \/ (\E a \in BOOLEAN : Te
 Spec == Init /\ [][Next]_vars
 
 TypeOK == /\ pc \in {"draw", "test", "done"} /\ result \in {"none", "out", "err"}
-          /\ got \in 0..Unit /\ tested >= 0 /\ drawn >= 0 /\ sawErr \in BOOLEAN /\ clean \in BOOLEAN
+          /\ got \in 0..Unit /\ tested \in Nat /\ drawn \in Nat /\ sawErr \in BOOLEAN /\ clean \in BOOLEAN
 
 \* C19: an output exists only if every evaluated candidate was a complete unit read without a
 \* failing Read; a failing Read that leaves the unit incomplete ends the call with an error
